@@ -243,8 +243,8 @@ def run(ctx):
 
     # ---- R3 retry only what failed
     r = ctx.rule("R3", "the retry sender receives exactly the failed payloads", 2, "A+C")
-    crp = hsr.nested.get("_check_retry_payloads")
-    dor = hsr.nested.get("_do_retry")
+    crp = producer_roles(ctx)["check_retry"]
+    dor = producer_roles(ctx)["do_retry"]
     need(crp and dor, "nested retry helpers missing")
     sends = [c for c in calls_in(dor, "send_produce_request")]
     r.check(len(sends) == 1 and sends[0].args and unparse(sends[0].args[0]) == dor.first_param(),
@@ -287,7 +287,7 @@ def run(ctx):
             "attempt 1: partition A acknowledged, B fails; retry of B fails with a client-side KafkaError; attempt 3 re-sends A: duplicates")
     # callLater(..., d.callback, [p for p, f in <failed list>]) and d.addCallback(_do_retry)
     cl = [c for c in calls_in(crp, "callLater")]
-    call_sites = [c for c in calls_in(hsr, crp.name)]
+    call_sites = [c for c in calls_in(hsr) if prog.resolve_call(hsr, c) is crp]
     passed = {unparse(c.args[0]) for c in call_sites if c.args}
     ok = False
     for c in cl:
@@ -298,7 +298,7 @@ def run(ctx):
             if src in passed | {crp.first_param()} and isinstance(tgt, ast.Tuple) and unparse(
                     lc.elt) == unparse(tgt.elts[0]) and not lc.generators[0].ifs:
                 ok = True
-    chained = any(g["cb"] is not None and unparse(g["cb"]) == dor.name for g in registrations(crp, prog))
+    chained = any(g["cb"] is not None and prog.resolve_callable(crp, g["cb"]) is dor for g in registrations(crp, prog))
     r.check(ok and chained, "%s#retry-list" % crp.qname,
             "the retry timer does not hand the failed payload list (and only it) to the retry sender",
             where(crp, cl[0] if cl else crp.node))
